@@ -37,7 +37,7 @@ def fresh_state(obj, align):
     return st, rsp0
 
 
-def check_function(obj, name, entry, align=0, max_steps=400000, loop_bound=2, time_budget=120.0, summaries=None):
+def check_function(obj, name, entry, align=0, max_steps=400000, loop_bound=2, time_budget=120.0, summaries=None, insn_budget=800000):
     """Returns dict(name, result in held|violated|inconclusive, paths, steps, queries, detail, havoc)."""
     from vlib.asmx.engine import reset_size_cache
     reset_size_cache()
@@ -52,7 +52,7 @@ def check_function(obj, name, entry, align=0, max_steps=400000, loop_bound=2, ti
     t0 = time.time()
     out = dict(name=name, align=align, paths=0, queries=0, detail='', havoc=0)
     try:
-        fin = run_with_budget(E, st, entry, t0 + time_budget)
+        fin = run_with_budget(E, st, entry, t0 + time_budget, insn_budget)
     except (Unsupported, BoundExceeded) as e:
         out.update(result='inconclusive', detail=str(e)[:300], steps=E.insn_count, secs=time.time() - t0)
         return out
@@ -98,7 +98,7 @@ def check_function(obj, name, entry, align=0, max_steps=400000, loop_bound=2, ti
     return out
 
 
-def run_with_budget(E, st, entry, deadline):
+def run_with_budget(E, st, entry, deadline, insn_budget=10**9):
     st.ip = entry
     work, finished = [st], []
     while work:
@@ -106,6 +106,8 @@ def run_with_budget(E, st, entry, deadline):
         while cur is not None and cur.ip is not None:
             if cur.steps > E.max_steps:
                 raise BoundExceeded('instruction budget exceeded')
+            if E.insn_count > insn_budget:
+                raise BoundExceeded('instruction budget %d exceeded, %d paths finished' % (insn_budget, len(finished)))
             if (E.insn_count & 1023) == 0 and time.time() > deadline:
                 raise BoundExceeded('time budget exceeded after %d instructions, %d paths finished' % (E.insn_count, len(finished)))
             succ = E.step(cur)
@@ -120,7 +122,7 @@ def run_with_budget(E, st, entry, deadline):
     return finished
 
 
-def sweep_object(path, aligns=(0,), only=None, time_budget=120.0, summaries=None):
+def sweep_object(path, aligns=(0,), only=None, time_budget=120.0, summaries=None, insn_budget=800000):
     res = []
     try:
         obj = Obj(path)
@@ -133,7 +135,7 @@ def sweep_object(path, aligns=(0,), only=None, time_budget=120.0, summaries=None
             continue
         for al in aligns:
             try:
-                r = check_function(obj, name, entry, al, time_budget=time_budget, summaries=summaries)
+                r = check_function(obj, name, entry, al, time_budget=time_budget, summaries=summaries, insn_budget=insn_budget)
             except Exception as e:
                 r = dict(name=name, result='inconclusive', detail='engine error: %s' % traceback.format_exc()[-300:], align=al)
             r['object'] = path
